@@ -185,7 +185,7 @@ def hCombine : Handler := fun r =>
       | .noSession => "err:nosession"
       | .panic => "panic"
       | .unmodelled => "unmodelled"
-    | .kf => if freshKeyLater fits then "KF-C20-3" else "-"
+    | .kf => "-"
     | .prop =>
       match implToks r with
       | "ok" :: _ :: _ :: parts =>
